@@ -15,6 +15,9 @@ C04 — property theorems: the ARPA address codec of `netutil/reversed.go`.
   of every address, with or without one trailing dot, decodes to that address.
 * `decode_canon`, `canonPTR_injective`: the decoder inverts the encoder on the canonical name
   itself, so distinct canonical addresses have distinct names (the bijection of the title).
+* `accepted_names_unique`, `accepted_name_determines_addr_partial`: an address has at most one
+  accepted name modulo ASCII case and one trailing dot (unconditional), and such a name
+  determines the address (non-mapped results).
 * `ipFromReversedAddr_total`: no input and no `idna.ToASCII` make the decoder panic; every
   rejection is an ARPA `*AddrError` carrying the trimmed input.
 -/
@@ -222,6 +225,32 @@ theorem canonPTR_injective (a a' : Addr) (hwf : WF a) (hwf' : WF a')
   rw [h1] at h2
   injection h2 with h2; injection h2
 
+/-- "Accepts nothing else", unconditionally (IPv4-mapped results included) and for every
+`idna.ToASCII`: all inputs that `IPFromReversedAddr` maps to one address are equal modulo
+ASCII case and one trailing dot — an address has at most one accepted name. -/
+theorem accepted_names_unique (toASCII : Bytes → Option Bytes) (s s' : Bytes) (a : Addr)
+    (h : ipFromReversedAddr toASCII s = .ok (.ok a))
+    (h' : ipFromReversedAddr toASCII s' = .ok (.ok a)) :
+    asciiLower (trimSuffix s [46]) = asciiLower (trimSuffix s' [46]) := by
+  rcases accepts_spelling toASCII s a h with ⟨b, rfl, _, _, hs⟩ | ⟨b, rfl, _, _, hs⟩ <;>
+  rcases accepts_spelling toASCII s' _ h' with ⟨b', he, _, _, hs'⟩ | ⟨b', he, _, _, hs'⟩ <;>
+  cases he <;> rw [hs, hs']
+
+/-- Conversely, for results that are not IPv4-mapped IPv6 addresses: two accepted inputs that
+are equal modulo ASCII case and one trailing dot decode to the same address (partial: the
+IPv4-mapped case would need the injectivity of the nibble spelling on mapped addresses,
+which `canonPTR`, mapping them to the IPv4 name, does not express). -/
+theorem accepted_name_determines_addr_partial (toASCII : Bytes → Option Bytes) (s s' : Bytes)
+    (a a' : Addr)
+    (h : ipFromReversedAddr toASCII s = .ok (.ok a))
+    (h' : ipFromReversedAddr toASCII s' = .ok (.ok a'))
+    (hm : ∀ b z, a = .v6 b z → ¬ is4in6 b) (hm' : ∀ b z, a' = .v6 b z → ¬ is4in6 b)
+    (hs : asciiLower (trimSuffix s [46]) = asciiLower (trimSuffix s' [46])) : a = a' := by
+  obtain ⟨h1, hwf, hz⟩ := accepts_only_canon_partial toASCII s a h hm
+  obtain ⟨h1', hwf', hz'⟩ := accepts_only_canon_partial toASCII s' a' h' hm'
+  exact canonPTR_injective a a' hwf hwf' (fun b z he => ⟨hz b z he, hm b z he⟩)
+    (fun b z he => ⟨hz' b z he, hm' b z he⟩) (by rw [← h1, ← h1', hs])
+
 /-! ### 4. totality and the shape of rejections -/
 
 /-- For every `idna.ToASCII` and every input, `IPFromReversedAddr` returns (no Go panic: no
@@ -273,6 +302,9 @@ def rejected (r : GoM (Except Err Addr)) : Bool :=
   | .ok (.error _) => true
   | _ => false
 example : acceptedAs (ipFromReversedAddr some (ascii "4.3.2.1.IN-addr.arpa.")) (.v4 [1, 2, 3, 4]) = true := by
+  decide
+/-- premises of `accepted_names_unique` are met by two different spellings of one name -/
+example : acceptedAs (ipFromReversedAddr some (ascii "4.3.2.1.in-addr.ARPA")) (.v4 [1, 2, 3, 4]) = true := by
   decide
 /-- leading zero, `+`, five labels, 31 nibbles, the repaired non-ASCII look-alike root -/
 example : rejected (ipFromReversedAddr some (ascii "04.3.2.1.in-addr.arpa")) = true := by decide
